@@ -90,15 +90,14 @@ theorem tok_dollar {k rest : Bytes} (hk : varOk k = true) (hr : WordEnd rest) :
 
 theorem tok_key (ns : Bool) {k rest : Bytes} (hk : keyOk k = true) (hr : WordEnd rest) :
     TokOk (if ns then ⟨.tQuestionDotIdent, [63, 46] ++ k⟩ else ⟨.tDotIdent, [46] ++ k⟩) rest := by
-  rcases keyOk_parts hk with rfl | ⟨c, r, rfl, hc, hall⟩
-  · cases ns
-    · simpa using TokOk.dot0 rest hr
-    · simpa using TokOk.qdot0 rest hr
+  obtain ⟨c, r, rfl, hall, hl⟩ := keyOk_parts hk
+  obtain ⟨x, wd, hrune, _⟩ := alnumBytes_cons_rune hall
+  have hc : isDig c = false := by rw [← runeAt_isDigit hrune]; exact letterR_notDigit (hl x wd hrune)
   cases ns
-  · have := TokOk.dot c r rest hall hr
+  · have := TokOk.dot c r rest hall (fun _ => hl) hr
     rw [hc] at this
     simpa using this
-  · have := TokOk.qdot c r rest hall hr
+  · have := TokOk.qdot c r rest hall (fun _ => hl) hr
     rw [hc] at this
     simpa using this
 
@@ -107,10 +106,10 @@ theorem tok_index (ns : Bool) {i : Int} {rest : Bytes} (hi : 0 ≤ i) (hr : Word
   obtain ⟨c, k, hck, hc, hall⟩ := fmtInt_nonneg hi
   rw [hck]
   cases ns
-  · have := TokOk.dot c k rest (alnumBytes_ascii hall) hr
+  · have := TokOk.dot c k rest (alnumBytes_ascii hall) (fun h => by rw [hc] at h; exact absurd h (by decide)) hr
     rw [hc] at this
     simpa using this
-  · have := TokOk.qdot c k rest (alnumBytes_ascii hall) hr
+  · have := TokOk.qdot c k rest (alnumBytes_ascii hall) (fun h => by rw [hc] at h; exact absurd h (by decide)) hr
     rw [hc] at this
     simpa using this
 
